@@ -20,7 +20,7 @@ from ..core import Result, HarnessBug
 
 ID = "C07"
 LEVEL = "exploration"
-BUDGET = {"quick": 3000, "thorough": 300000}
+BUDGET = {"quick": 3000, "thorough": 900000}
 ENUM_BOUND = {"quick": 2500, "thorough": 120000}
 # A case takes well under a millisecond; an executor silent for RUN_TIMEOUT seconds is stuck (e.g. a longjmp
 # to a stale buffer looping forever).  Once a process has seen two such hangs it waits less for further ones,
